@@ -13,6 +13,7 @@ import (
 	arrowpb "github.com/open-telemetry/otel-arrow/api/experimental/arrow/v1"
 	cfgpkg "github.com/open-telemetry/otel-arrow/pkg/config"
 	"github.com/open-telemetry/otel-arrow/pkg/otel/arrow_record"
+	"go.opentelemetry.io/collector/pdata/pcommon"
 	"go.opentelemetry.io/collector/pdata/plog"
 	"go.opentelemetry.io/collector/pdata/pmetric"
 	"go.opentelemetry.io/collector/pdata/ptrace"
@@ -46,7 +47,7 @@ func optionSet(r *Rng) ([]cfgpkg.Option, string) {
 //	0  strictly alternating (encode batch b, decode batch b)
 //	1  the consumer lags behind: batch b is decoded only after batch b+lag has been encoded (a queue between them)
 //	2  the consumer runs in its own goroutine, fed through a channel (a transport between exporter and receiver)
-func runStream(seed uint64, yield func(), shared int, copts []arrow_record.Option, pipe int) (out []string, errs int, sched []int) {
+func runStream(seed uint64, yield func(), shared int, copts []arrow_record.Option, pipe int, deep bool) (out []string, errs int, sched []int) {
 	r := NewRng(seed)
 	g := &OGen{r: r.Fork(), Wide: r.Chance(40), Mono: monoPick(r)}
 	options, _ := optionSet(r)
@@ -189,6 +190,23 @@ func runStream(seed uint64, yield func(), shared int, copts []arrow_record.Optio
 		if itemCount(data) == 0 {
 			continue
 		}
+		if deep && b == 1 {
+			// a map attribute nested 40 levels deep: its consumer refuses it (CBOR nesting limit); no other instance may notice
+			var attrs pcommon.Map
+			switch d := data.(type) {
+			case ptrace.Traces:
+				attrs = d.ResourceSpans().At(0).Resource().Attributes()
+			case plog.Logs:
+				attrs = d.ResourceLogs().At(0).Resource().Attributes()
+			case pmetric.Metrics:
+				attrs = d.ResourceMetrics().At(0).Resource().Attributes()
+			}
+			m := attrs.PutEmptyMap("deep")
+			for lvl := 0; lvl < 40; lvl++ {
+				m = m.PutEmptyMap("d")
+			}
+			m.PutStr("leaf", "x")
+		}
 		yield()
 		pd := produce(data)
 		sched = append(sched, nprod) // produce message nprod
@@ -324,9 +342,13 @@ func runIndep(o opts, out *Output) {
 				seeds = seeds[:4]
 			}
 		}
+		// every fifth case: stream 0 carries a value its consumer refuses (too deeply nested); the other streams of the case are
+		// valid and must decode without a single error, alone and beside it
+		deepCase := c%5 == 3
+		soloErrs, concErrs := make([]int, nStreams), make([]int, nStreams)
 		solo := make([][]string, nStreams)
 		for i, s := range seeds {
-			solo[i], _, _ = runStream(s, func() {}, shared, sharedConsumerOptions(), 0)
+			solo[i], soloErrs[i], _ = runStream(s, func() {}, shared, sharedConsumerOptions(), 0, deepCase && i == 0)
 		}
 		copts := sharedConsumerOptions() // one set of option values for all streams of the case
 		conc := make([][]string, nStreams)
@@ -337,13 +359,17 @@ func runIndep(o opts, out *Output) {
 			go func(i int, s uint64) {
 				defer wg.Done()
 				<-gate
-				conc[i], _, _ = runStream(s, func() {}, shared, copts, []int{2, 0, 1}[(c+i)%3])
+				conc[i], concErrs[i], _ = runStream(s, func() {}, shared, copts, []int{2, 0, 1}[(c+i)%3], deepCase && i == 0)
 			}(i, s)
 		}
 		close(gate)
 		wg.Wait()
 		same := true
 		for i := range seeds {
+			if i > 0 && (soloErrs[i] > 0 || concErrs[i] > 0) {
+				out.Violation("C16", "valid-stream-fails", fmt.Sprintf("stream %d of %d is valid but %d (alone) / %d (concurrently) of its batches were not encoded or decoded; stream 0 of the case carried a value its own consumer refuses: %v", i, nStreams, soloErrs[i], concErrs[i], deepCase),
+					map[string]any{"seed": o.seed, "case": c, "stream": i, "stream_seed": seeds[i], "deep_value_in_stream_0": deepCase})
+			}
 			if fmt.Sprint(solo[i]) != fmt.Sprint(conc[i]) {
 				same = false
 				out.Violation("C16", "concurrent-differs-from-solo", fmt.Sprintf("stream %d of %d decodes differently when run concurrently with the others than when run alone", i, nStreams),
@@ -365,7 +391,7 @@ func runIndep(o opts, out *Output) {
 					defer wg2.Done()
 					<-co.wake[i]
 					defer co.done(i)
-					coopOut[i], _, coopSched[i] = runStream(s, func() { co.yield(i) }, shared, copts, (rep+i)%2)
+					coopOut[i], _, coopSched[i] = runStream(s, func() { co.yield(i) }, shared, copts, (rep+i)%2, deepCase && i == 0)
 				}(i, s)
 			}
 			co.wake[0] <- struct{}{}
@@ -441,7 +467,16 @@ func runMemory(o opts, out *Output) {
 			options, optName = randomOptions(r)
 		}
 		pool := memory.NewCheckedAllocator(memory.NewGoAllocator())
-		options = append(options, cfgpkg.WithAllocator(pool))
+		var fa *faultAllocator
+		if c%4 == 1 {
+			// an encode error in the middle of Produce: the caller's allocator refuses one allocation during the IPC write of
+			// the k-th record of the stream (arrow-go reports it as an error of Write)
+			fa = &faultAllocator{inner: pool}
+			options = append(options, cfgpkg.WithAllocator(fa), cfgpkg.WithObserver(&faultObs{evObserver: evObserver{events: map[string]string{}}, alloc: fa, at: r.Intn(10)}))
+			optName += "+refused-allocation-in-ipc-write"
+		} else {
+			options = append(options, cfgpkg.WithAllocator(pool))
+		}
 		p := arrow_record.NewProducerWithOptions(options...)
 		mode := r.Intn(4)
 		nb := 1 + r.Intn(6)
@@ -514,6 +549,9 @@ func runMemory(o opts, out *Output) {
 		}
 		if left := pool.CurrentAlloc(); left != 0 {
 			out.Violation("C15", "memory-not-released", fmt.Sprintf("%d bytes of the caller's allocator still in use after Close (options %s, history %v)", left, optName, hist), map[string]any{"seed": o.seed, "case": c, "history": hist})
+		}
+		if fa != nil {
+			stats["injected_refusals_fired"] += int(fa.fired)
 		}
 		stats["bytes_in_use_before_close"] += inuseBefore
 		out.AddCase(map[string]any{"case": c, "options": optName, "history": hist, "in_use_before_close": inuseBefore, "in_use_after_close": pool.CurrentAlloc()}, true, "options="+optName)
